@@ -733,8 +733,8 @@ func (c *c06) yPattern() ([]byte, string) {
 	case 0, 7:
 		return c.g.Bytes(32), "random"
 	case 1:
-		if len(nonCanonicalPoints) > 0 {
-			return clone(nonCanonicalPoints[t.W(len(nonCanonicalPoints))]), "non-canonical"
+		if len(ncPoints()) > 0 {
+			return clone(ncPoints()[t.W(len(ncPoints()))]), "non-canonical"
 		}
 		return c.g.Bytes(32), "random"
 	case 2: // p + k, k in 0..18, either sign: every y >= p
@@ -1186,8 +1186,8 @@ func (c *c06) buildItems() {
 	} else {
 		A = edBytes(curve.EIGHT_TORSION[t.W(8)])
 	}
-	if len(nonCanonicalPoints) > 0 && t.W(3) == 2 {
-		copy(so, nonCanonicalPoints[t.W(len(nonCanonicalPoints))])
+	if len(ncPoints()) > 0 && t.W(3) == 2 {
+		copy(so, ncPoints()[t.W(len(ncPoints()))])
 	} else {
 		copy(so, edBytes(curve.EIGHT_TORSION[t.W(8)]))
 	}
@@ -1209,7 +1209,7 @@ var c06ncSmall [][]byte
 func c06smallNonCanonical() [][]byte {
 	if c06ncSmall == nil {
 		c06ncSmall = [][]byte{}
-		for _, b := range nonCanonicalPoints {
+		for _, b := range ncPoints() {
 			var p curve.EdwardsPoint
 			if p.UnmarshalBinary(b) == nil && p.IsSmallOrder() {
 				c06ncSmall = append(c06ncSmall, b)
